@@ -641,7 +641,10 @@ def rule_continuation(ck, methods, all_acc):
             from ..x_resolve import concat_pieces
             pieces = concat_pieces(v)
             if pieces is None:
-                raise AnalysisError("C06.continuation: the appended continuation text %s is not a recognised concatenation" % q.unparse(v))
+                if isinstance(v, ast.Call) and q.call_attr(v) == "strip" and q.dotted(v.func.value) == pl.params()[1]:
+                    pieces = [v]   # the stripped line itself, nothing prepended
+                else:
+                    raise AnalysisError("C06.continuation: the appended continuation text %s is not a recognised concatenation" % q.unparse(v))
             pieces = [resolve(pl, x) for x in pieces]
             okj = len(pieces) == 2 and q.is_const(pieces[0], " ")
             n += 1
